@@ -178,7 +178,7 @@ Proof.
   repeat match goal with
          | |- context [match ?y with _ => _ end] => destruct y
          end; sp; rewrite ?(sum_upd PNone) by reflexivity; unfold pcof;
-    cbn [pcnt pobj dcount zcount oid]; splits; try reflexivity; lia.
+    cbn [pcnt pobj dcount zcount oid bump recycled_obj]; splits; try reflexivity; lia.
 Qed.
 
 Lemma leave_wait_count s t a x :
@@ -201,7 +201,7 @@ Qed.
 Ltac di_arith :=
   rewrite ?(sum_upd PNone) by reflexivity;
   repeat match goal with E : pcof ?s ?t = _ |- _ => unfold pcof in E; rewrite ?E in * end;
-  cbn [pcnt pobj dcount zcount oid idle_at new_obj] in *; rewrite ?zcount_app in *; cbn [zcount] in *;
+  cbn [pcnt pobj dcount zcount oid idle_at new_obj bump recycled_obj] in *; rewrite ?zcount_app in *; cbn [zcount] in *;
   try lia.
 
 Lemma born_succ x s :
